@@ -49,8 +49,12 @@ def grid(tier: str) -> List[Dict[str, Any]]:
     modes = ("single", "dual", "single6")
     jitters = (0.0,) if tier == "quick" else (0.0, 1.0)
     for q, probe, id_, port, fam, age, socks, jit in itertools.product(
-            QUESTIONS, (False, True), (0, 0x1234), (5353, 1234), ("v4", "v6"), ages, modes, jitters):
-        if (fam == "v6") != (socks == "single6") and socks != "dual":
+            QUESTIONS, (False, True), (0, 0x1234), (5353, 1234), ("v4", "v6", "v4m"), ages, modes, jitters):
+        # 'v4m': an IPv4 querier heard on a dual-stack IPv6 socket - the source is the IPv4-mapped address ::ffff:a.b.c.d
+        if fam == "v4m":
+            if socks == "single" or age not in ("400ms", "fresh", "30s+1", "5000s"):
+                continue
+        elif (fam == "v6") != (socks == "single6") and socks != "dual":
             continue
         if age.endswith("+1") and port == 5353 and socks == "single" and id_ == 0 and any(qu for _, _, qu in QUESTIONS[q]):
             # the same QU query (byte-identical, same source) already arrived 800 ms earlier, before the quarter-TTL boundary
@@ -89,8 +93,8 @@ def run_point(p: Dict[str, Any], verbose: bool = False) -> Tuple[Optional[Dict[s
         qs = QUESTIONS[p["q"]]
         auth = [("PTR", TA, 1, 4500, "proposed._a._tcp.local.")] if p["probe"] else []
         data = wire.query([("Q", n, t, 0x8001 if qu else 1) for n, t, qu in qs], authorities=auth, id_=p["id"])
-        v6 = p["fam"] == "v6"
-        src_ip = "fe80::99" if v6 else "10.0.0.99"
+        v6 = p["fam"] in ("v6", "v4m")
+        src_ip = ("::ffff:10.0.0.99" if p["fam"] == "v4m" else "fe80::99") if v6 else "10.0.0.99"
         # which socket receives: multicast queries arrive on the listen socket (dual) / the only socket (single);
         # legacy unicast queries are sent to the host's own address, i.e. a respond socket
         if p["socks"] in ("single", "single6"):
@@ -101,7 +105,7 @@ def run_point(p: Dict[str, Any], verbose: bool = False) -> Tuple[Optional[Dict[s
         else:
             rx = [t for t in host.transports() if (t.sock.role == "listen" and not v6) or
                   (v6 and t.sock.role == "respond" and t.sock.family == socket.AF_INET6)][0]
-        src = (src_ip, p["port"], 0, host.scope_id) if v6 else (src_ip, p["port"])
+        src = (src_ip, p["port"], 0, 0 if p["fam"] == "v4m" else host.scope_id) if v6 else (src_ip, p["port"])
         if p.get("sibling"):
             w.advance_to_ms(tq - 5000)
             sib = wire.response([("PTR", TA, 1, 4500, "neighbour._a._tcp.local."), ("PTR", "_b._tcp.local.", 1, 4500, "nb._b._tcp.local."),
